@@ -6,8 +6,10 @@ import (
 	"encoding/json"
 	"fmt"
 	"os"
+	"strconv"
 	"strings"
 	"sync"
+	"unicode/utf16"
 
 	"github.com/robertkrimen/otto"
 )
@@ -93,5 +95,41 @@ func jsRun(vm *otto.Otto, src string) (v otto.Value, err error) {
 			err = fmt.Errorf("js panic: %v", r)
 		}
 	}()
-	return vm.Run(src)
+	return vm.Run(jsFoldSurrogateEscapes(src))
+}
+
+// jsFoldSurrogateEscapes replaces every escape pair \uD8xx\uDCxx (a high surrogate immediately
+// followed by a low surrogate) by the character it denotes, written raw.  In a JavaScript string
+// literal the two spellings denote the same string; otto, however, converts each escape on its
+// own to a Go rune (an unpaired surrogate becomes U+FFFD) and would misreport correct code.  A
+// backslash that is itself escaped is skipped together with its escaper.
+func jsFoldSurrogateEscapes(src string) string {
+	if !strings.Contains(src, "\\uD") && !strings.Contains(src, "\\ud") {
+		return src
+	}
+	var b strings.Builder
+	hex4 := func(s string) (rune, bool) {
+		if len(s) < 6 || s[0] != '\\' || s[1] != 'u' {
+			return 0, false
+		}
+		n, err := strconv.ParseUint(s[2:6], 16, 32)
+		return rune(n), err == nil
+	}
+	for i := 0; i < len(src); {
+		if src[i] != '\\' || i+1 >= len(src) {
+			b.WriteByte(src[i])
+			i++
+			continue
+		}
+		if hi, ok := hex4(src[i:]); ok && hi >= 0xD800 && hi < 0xDC00 {
+			if lo, ok := hex4(src[i+6:]); ok && lo >= 0xDC00 && lo < 0xE000 {
+				b.WriteRune(utf16.DecodeRune(hi, lo))
+				i += 12
+				continue
+			}
+		}
+		b.WriteString(src[i : i+2])
+		i += 2
+	}
+	return b.String()
 }
